@@ -294,32 +294,39 @@ Definition fnv_op (kind : Z) (s : list Z) (h n : Z) : list Z :=
   else if kind =? 10 then match s with [c] => [ST_OK; fnv1a_byte c h] | _ => [ST_BADCASE] end
   else [ST_BADCASE].
 
+(* one branch per helper; [rest] are the argument groups after the [op] group *)
+Definition run_op (op : Z) (rest : list (list Z)) : list Z :=
+  if op =? 1 then match rest with [a] => [ST_OK; cstrlen a] | _ => [ST_BADCASE] end
+  else if op =? 2 then match rest with [a] => ST_OK :: cstr_to_bytes a | _ => [ST_BADCASE] end
+  else if op =? 3 then match rest with [a] => ST_OK :: cstr_tolower a | _ => [ST_BADCASE] end
+  else if op =? 4 then match rest with [a] => ST_OK :: cstr_toupper a | _ => [ST_BADCASE] end
+  else if op =? 5 then match rest with
+       | [[c]] => [ST_OK; b2z (is_alpha c); b2z (is_number c); b2z (is_alnum c); b2z (is_ascii c); to_lower c; to_upper c]
+       | _ => [ST_BADCASE] end
+  else if op =? 6 then match rest with [s] => wire (fun ls => lenZ ls :: wire_lines ls) (read_lines s) | _ => [ST_BADCASE] end
+  else if op =? 7 then match rest with [a] => wire wire2 (trim_dbcs a) | _ => [ST_BADCASE] end
+  else if op =? 8 then match rest with [a] => [ST_OK; string_hash a] | _ => [ST_BADCASE] end
+  else if op =? 9 then match rest with [a] => [ST_OK; string_hash_bits a] | _ => [ST_BADCASE] end
+  else if op =? 10 then match rest with [[k]; s; [h]; [n]] => fnv_op k s h n | _ => [ST_BADCASE] end
+  else if op =? 11 then match rest with [s] => ST_OK :: strip_blank s | _ => [ST_BADCASE] end
+  else if op =? 12 then match rest with [s] => ST_OK :: wire2 (strip_none_big5 s, write_back s (strip_none_big5 s)) | _ => [ST_BADCASE] end
+  else if op =? 13 then match rest with [s; [flag]] => wire (fun o => o) (strip_ansi s flag) | _ => [ST_BADCASE] end
+  else if op =? 14 then match rest with [s] => ST_OK :: trim s | _ => [ST_BADCASE] end
+  else if op =? 15 then match rest with [s] => wire (fun o => o) (dbcs_safe_trim s) | _ => [ST_BADCASE] end
+  else if op =? 16 then match rest with [s; [pos]] => wire (fun st => [st]) (dbcs_status s pos) | _ => [ST_BADCASE] end
+  else if op =? 17 then match rest with [[c]; [prev]] => [ST_OK; dbcs_next c prev] | _ => [ST_BADCASE] end
+  else if op =? 18 then match rest with [s] => wire (fun r => fst r :: snd r) (subject_ex (fixlen TITLE_SZ s)) | _ => [ST_BADCASE] end
+  else if op =? 19 then match rest with [s] => ST_OK :: strip_movecmd s | _ => [ST_BADCASE] end
+  else if op =? 20 then match rest with [a; b] => [ST_OK; cstrcmp a b] | _ => [ST_BADCASE] end
+  else if op =? 21 then match rest with [a; b] => [ST_OK; cstrcasecmp a b] | _ => [ST_BADCASE] end
+  else if op =? 22 then match rest with [a; b] => [ST_OK; cstrstr a b] | _ => [ST_BADCASE] end
+  else if op =? 23 then match rest with [a; b] => [ST_OK; cstrcasestr a b] | _ => [ST_BADCASE] end
+  else if op =? 24 then match rest with [a; b] => [ST_OK; b2z (cstr_case_has_prefix a b)] | _ => [ST_BADCASE] end
+  else if op =? 25 then match rest with [a; sep] => ST_OK :: wire2 (cstr_token_r a sep) | _ => [ST_BADCASE] end
+  else [ST_BADCASE].
+
 Definition run_case (args : list (list Z)) : list Z :=
   match args with
-  | [[1]; a] => [ST_OK; cstrlen a]
-  | [[2]; a] => ST_OK :: cstr_to_bytes a
-  | [[3]; a] => ST_OK :: cstr_tolower a
-  | [[4]; a] => ST_OK :: cstr_toupper a
-  | [[5]; [c]] => [ST_OK; b2z (is_alpha c); b2z (is_number c); b2z (is_alnum c); b2z (is_ascii c); to_lower c; to_upper c]
-  | [[6]; s] => wire (fun ls => lenZ ls :: wire_lines ls) (read_lines s)
-  | [[7]; a] => wire wire2 (trim_dbcs a)
-  | [[8]; a] => [ST_OK; string_hash a]
-  | [[9]; a] => [ST_OK; string_hash_bits a]
-  | [[10]; [k]; s; [h]; [n]] => fnv_op k s h n
-  | [[11]; s] => ST_OK :: strip_blank s
-  | [[12]; s] => let o := strip_none_big5 s in ST_OK :: wire2 (o, write_back s o)
-  | [[13]; s; [flag]] => wire (fun o => o) (strip_ansi s flag)
-  | [[14]; s] => ST_OK :: trim s
-  | [[15]; s] => wire (fun o => o) (dbcs_safe_trim s)
-  | [[16]; s; [pos]] => wire (fun st => [st]) (dbcs_status s pos)
-  | [[17]; [c]; [prev]] => [ST_OK; dbcs_next c prev]
-  | [[18]; s] => wire (fun r => fst r :: snd r) (subject_ex (fixlen TITLE_SZ s))
-  | [[19]; s] => ST_OK :: strip_movecmd s
-  | [[20]; a; b] => [ST_OK; cstrcmp a b]
-  | [[21]; a; b] => [ST_OK; cstrcasecmp a b]
-  | [[22]; a; b] => [ST_OK; cstrstr a b]
-  | [[23]; a; b] => [ST_OK; cstrcasestr a b]
-  | [[24]; a; b] => [ST_OK; b2z (cstr_case_has_prefix a b)]
-  | [[25]; a; sep] => ST_OK :: wire2 (cstr_token_r a sep)
+  | [op] :: rest => run_op op rest
   | _ => [ST_BADCASE]
   end.
